@@ -317,6 +317,7 @@ def check(P, R):
     from ..report import Sub as _Sub18
     _c13b.check_get_body_string(P, _Sub18(R, why='an urlencoded body up to the in-memory threshold is parsed (one byte more is read only to tell it is too long)'), 'C18.d')
     check_add(P, R, f)
+    check_container_keeps_object(P, R, 'C18.c')
     check_decode_order(P, R, f, unq)
     check_callers(P, R)
     from . import c13 as _c13
@@ -339,6 +340,39 @@ def check_callers(P, R):
     # POST: the urlencoded branch is entered for every body that is neither multipart nor JSON - whatever the framing
     check_view_guards(P, R, 'C18.b', 'ombott.request_pkg.body_mixin:BodyMixin.POST', lambda c: dotted(c.func) == 'parse_qsl', 'the urlencoded branch',
                       'URL-encoding pairs as an urlencoded body and parsing yields the same pairs')
+
+
+def check_container_keeps_object(P, R, rid):
+    """parse_qsl hands the list of a repeated key to the container once (at the second occurrence) and afterwards appends to that same list: the container
+    must keep the very object it is given.  The containers are built by `_forms_factory` (FormsDict): no `__setitem__` of that class (or of a package base class)
+    stores a copy."""
+    cls = P.classes.get('ombott.request_pkg.helpers:FormsDict')
+    if cls is None:
+        R.undecided(rid, 'ombott.request_pkg.helpers', None, 'container of the parsed pairs', 'class FormsDict not found')
+        return
+    found = False
+    for k in P.mro(cls):
+        m = k.methods.get('__setitem__')
+        if m is None or not k.fq.startswith('ombott.'):
+            continue
+        found = True
+        vp = m.params[2] if len(m.params) > 2 else None
+        ok = True
+        why_not = ''
+        for c in walk_shallow(m.node):
+            if isinstance(c, ast.Call) and call_attr(c) == '__setitem__' and len(c.args) >= 2:
+                a = c.args[-1]
+                ns = m.cfg.node_of_stmt(c)
+                if not (isinstance(a, ast.Name) and a.id == vp and ns and all(d.kind == 'param' for d in m.rd.at(ns[0], vp))):
+                    ok = False
+                    ds = [d for d in (m.rd.at(ns[0], a.id) if ns and isinstance(a, ast.Name) else []) if d.kind != 'param']
+                    why_not = short(ds[0].stmt) if ds else short(a)
+        R.ob(rid, m, m.node, ok, text=f'{k.name}.__setitem__ stores the object it is given', detail='' if ok else
+             f'{k.name}.__setitem__ can store `{why_not}` instead of the value itself (a copy of a list): parse_qsl gives the list of a repeated key to the container '
+             f'at the second occurrence and appends later values to its own reference - they never reach the stored copy, so a=1&a=2&a=3 reads as [\'1\', \'2\']',
+             why='repeated keys are collected as lists in submission order', key_extra='container-copies')
+    if not found:
+        R.ob(rid, cls.fq, None, True, text='FormsDict stores through dict.__setitem__ (the object itself)', nontrivial=False)
 
 
 def check_view_guards(P, R, rid, fq, is_sink, what, why):
@@ -676,6 +710,9 @@ def check_decode_order(P, R, f, unq):
 def check_query_memo(P, R):
     """request.query is memoised in the environ under the key the change listener drops when QUERY_STRING is written through the request
     (writer and invalidator agree on the memo key; nothing else stores the parsed query under a second key that is read back)"""
+    from . import c15 as _c15
+    _c15.check_env_store_emits(P, R, 'C18.d', 'the pairs parsed are those of the query string the request carries now',
+                               'the query parsed while QUERY_STRING was absent (an empty dict) - stay cached, so `request["QUERY_STRING"] = "a=1"` is never parsed')
     q = P.func('ombott.request_pkg.body_mixin:BodyMixin.query')
     keys = []
     for d in q.node.decorator_list:
